@@ -818,3 +818,56 @@ def u_pq_next(ctx, w, z, p):
             nm, lo, ln = arr.meta["rows"]
             ctx.check(f"{name}/post:rows[{attr}]", And(nm == cols[attr], lo == k * c, ln == Min(c, n - k * c)))
     ctx.check(f"{name}/post:invariant_for_the_next_chunk", And(dq.wf(), dq.lo == Min((k + 1) * c, n), dq.hi == SNum(f.gstart(to_term(r._group_idx))), r._group_idx <= f.G))
+
+
+# ---------------------------------------------------------------------------------------------------------
+# reader constructors: the configured chunk size, unit flag and column names reach the reader state
+# ---------------------------------------------------------------------------------------------------------
+
+@unit(P, "Reader.__init__", fuc=["yaw.catalog.readers:DataReader.__init__", "yaw.catalog.readers:DataFrameReader.__init__", "yaw.catalog.readers:FitsReader.__init__",
+                                "yaw.catalog.readers:HDFReader.__init__", "yaw.catalog.readers:ParquetReader.__init__", "yaw.catalog.readers:DataChunkReader._reset_iter_state"],
+      cases=[dict(cls=c, given=g, degrees=d, opt=o) for c in ("DataFrameReader", "FitsReader", "HDFReader", "ParquetReader") for g in (False, True)
+             for d in (False, True) for o in (False, True)])
+def u_reader_init(ctx, cls, given, degrees, opt):
+    """after construction: the chunk size is the configured one (the module default if none is given), never larger; the unit flag is
+    the one passed; the column map holds exactly the given names under their attributes; the record count is the length of the
+    source; iteration starts at record 0"""
+    R = mod("yaw.catalog.readers")
+    import types
+    n = ctx.fresh_int("n", lo=1, size=True)
+    cs = ctx.fresh_int("chunksize", lo=1) if given else None
+    names = dict(ra_name="RA", dec_name="DEC")
+    if opt:
+        names.update(weight_name="W", redshift_name="Z", patch_name="PID")
+    name = f"C18/{cls}.__init__"
+
+    class Sized:
+        def __init__(s, tag):
+            s.tag = tag
+
+        def vc_len(s):
+            return n
+
+        def __getitem__(s, key):
+            return Sized((s.tag, key))
+    src = Sized("source")
+    with Patches() as pt:
+        pt.set(R, "issue_io_log", lambda *a, **k: None)
+        pt.set(R, "fits", types.SimpleNamespace(open=lambda path: {1: types.SimpleNamespace(data=src)}))
+        pt.set(R, "h5py", types.SimpleNamespace(File=lambda path, mode="r": src))
+        pt.set(R, "parquet", types.SimpleNamespace(ParquetFile=lambda path: types.SimpleNamespace(metadata=types.SimpleNamespace(num_rows=n))))
+        pt.set(R, "common_len_assert", lambda cols: None)
+        ctx.canary()
+        klass = getattr(R, cls)
+        arg = src if cls == "DataFrameReader" else "/data/file"
+        r = expect_no_exception(ctx, call(klass, arg, **names, chunksize=cs, degrees=degrees), name)
+    want_cs = cs if given else SNum(z3.IntVal(R.CHUNKSIZE))
+    ctx.check(f"{name}/post:chunksize_is_the_configured_one_or_the_default", And(r.chunksize <= want_cs, Or(r.chunksize == want_cs, r.chunksize == n)),
+              detail="a reader that ignores the configured chunk size requests the whole input at once")
+    ctx.check(f"{name}/post:unit_flag", r.degrees is degrees, detail="coordinates given in radian must not be converted again")
+    want_cols = {"ra": "RA", "dec": "DEC"}
+    if opt:
+        want_cols.update(weights="W", redshifts="Z", patch_ids="PID")
+    ctx.check(f"{name}/post:column_map", dict(r._columns) == want_cols and list(r._columns) == list(want_cols))
+    ctx.check(f"{name}/post:chunk_info", r._chunk_info.has_weights == opt and r._chunk_info.has_redshifts == opt and r._chunk_info.has_patch_ids == opt)
+    ctx.check(f"{name}/post:record_count_and_start", And(r._num_records == n, r._num_samples == 0))
